@@ -39,7 +39,9 @@ Inductive case :=
 
 Definition peer_of (r : request) : str := match r_peer r with Some p => p | None => [] end.
 
-(* [in_region]: the INPUT lies in some known-finding region (an implementation that
+(* No known-finding region is left for C08 ([in_region] is [false] everywhere and every clause
+   explanation is [None]); the region machinery below is kept as it was.
+   [in_region]: the INPUT lies in some known-finding region (an implementation that
    differs from the defective model there but meets every clause has been repaired: no
    alarm); when a clause fails, every failing clause must be explained by a region that
    applies to the input, otherwise the failure is reported.
@@ -92,14 +94,12 @@ Definition check_case (c : case) : N :=
       match impl, m with
       | Ok hi, Ok hm =>
           let hdr := r_hdr r in
-          (* addHeaders does not act upon Connection, so region 4 cannot apply at this
-             level: the clauses are evaluated against the client map without Connection *)
           let clf up := if cfg_sane cfg
-                        then clauses cfg (hdel hdr K_CONN) (peer_of r) (r_host r) (is_tls r) (is_ws hdr) up
+                        then clauses cfg hdr (peer_of r) (r_host r) (is_tls r) (is_ws hdr) up
                         else [] in
           judge (hmap_eqb hi hm) (clf hi) (clf hm)
                 (if cfg_sane cfg then map (fun k => veq (hfind hi k) (hfind hm k)) (clause_keys cfg) else []) true
-                (F_cih_xrealip_forged cfg hdr) (forged cfg hdr)
+                false (forged cfg hdr)
       | Err _, Err _ => verdict true (match r_peer r with None => true | _ => false end) None false
       | Panic, Panic => v_model_spec_fails
       | Panic, _ => v_disagree_spec_fails
@@ -122,7 +122,7 @@ Definition check_case (c : case) : N :=
           judge same (clf hi) (clf hm)
                 (if cfg_sane cfg then map (fun k => veq (hfind hi k) (hfind hm k)) (clause_keys cfg) else [])
                 (cl_sts cfg (is_tls r) si)
-                (negb (no_region cfg hdr)) (forged cfg hdr)
+                false (forged cfg hdr)
       | Err _, Err _ => verdict true (match r_peer r with None => true | _ => false end) None false
       | Panic, Panic => v_model_spec_fails
       | Panic, _ => v_disagree_spec_fails
